@@ -191,6 +191,25 @@ pub fn c17(ctx: &Ctx) {
             ev::violation("C17|dims", e, J::Null);
             return;
         }
+        // the same pixels in other contexts, judged by the same per-pixel rules: reversed with every pixel doubled
+        // (a pixel equal to its predecessor), and as tiny images of 1..7 pixels
+        let ck = a / chunk;
+        if ck % 3 == 1 {
+            let m = px.len().min(8192);
+            let mut v = Vec::with_capacity(2 * m);
+            for i in (0..m).rev() {
+                v.push(px[i]);
+                v.push(px[i]);
+            }
+            let _ = check(&v, &mut acc);
+        } else if ck % 3 == 2 {
+            let (mut i, mut len) = (0usize, 1usize);
+            while i + len <= px.len().min(2048) {
+                let _ = check(&px[i..i + len], &mut acc);
+                i += len;
+                len = len % 7 + 1;
+            }
+        }
         let mut g = glob.lock().unwrap();
         g.h.merge(&acc.h);
         g.s.merge(&acc.s);
